@@ -5,8 +5,8 @@ CONSTANTS
     PipeCap = 8
     MaxTicks = 0
     TimeoutOK = FALSE
-    Faults <- AllFaults
-    OwnerAborts = FALSE
+    Faults <- CloseOnly
+    OwnerAborts = TRUE
     Fixed = TRUE
     HangFix = TRUE
 INVARIANTS
